@@ -367,6 +367,27 @@ def event(fn, args, site=None, feat=None, timeout=30):
     return e
 
 
+def intsyms(x):
+    """The same call over an alphabet of integer token ids: a -> 0, b -> 1 (0 is falsy, like epsilon '')."""
+    if isinstance(x, str):
+        return {"a": "<0>", "b": "<1>"}.get(x, x)
+    if isinstance(x, list):
+        return [intsyms(y) for y in x]
+    if isinstance(x, dict):
+        return {k: intsyms(v) for k, v in x.items()}
+    return x
+
+
+def variant_event(rng, p=0.15, skip=()):
+    """event() that re-spells a fraction of the calls over integer symbols."""
+    def ev(fn, args, site=None, feat=None, timeout=30):
+        if fn not in skip and rng.random() < p:
+            args = intsyms(args)
+            feat = (feat or "plain") + "+int-symbols"
+        return event(fn, args, site=site, feat=feat, timeout=timeout)
+    return ev
+
+
 def numeric_ok(M, lim=2048):
     for key in ("I", "F", "arcs"):
         for r in M.get(key, []):
